@@ -123,7 +123,8 @@ def run_rules(ctx, F, A, X):
             for i, ev in enumerate(tr):
                 if not ev["key"].endswith("::parse_with_tlf"):
                     continue
-                seen_sites.add(ev["bb"])
+                if ev["fn"] == d:
+                    seen_sites.add(ev["bb"])
                 T = self_type_of(ev["key"])
                 tlf_arg = ev["args"][1]
                 ok = False
